@@ -7,6 +7,7 @@ import (
 	"fmt"
 	"reflect"
 	"runtime"
+	"sync"
 
 	"github.com/hashicorp/go-argmapper/internal/graph"
 )
@@ -81,6 +82,10 @@ type Func struct {
 	name       string
 	once       bool
 	onceResult *Result
+
+	// onceLock guards onceResult and is held while a FuncOnce function
+	// executes so that concurrent first uses run the function only once.
+	onceLock *sync.Mutex
 }
 
 // MustFunc can be called around NewFunc in order to force success and
@@ -139,6 +144,7 @@ func NewFunc(f interface{}, opts ...Arg) (*Func, error) {
 		callOpts: opts,
 		name:     args.funcName,
 		once:     args.funcOnce,
+		onceLock: &sync.Mutex{},
 	}, nil
 }
 
